@@ -360,11 +360,24 @@ func AlphaFamilies(tier string) []AlphaSpec {
 	P := func(n int) string { return rep('p', n) }
 	Q := func(n int) string { return rep('q', n) }
 	var out []AlphaSpec
-	out = append(out, AlphaSpec{
-		Name:   "SHORT",
-		Free:   []string{"", "a", "b", "ab", "abc", "abd", "b\xff", "\x80", "\xff\xff", "\x01"},
-		Probes: []string{"c", "abe", "\xff", "a\x01"},
-	})
+	if tier == "thorough" {
+		out = append(out, AlphaSpec{
+			Name:   "SHORT",
+			Free:   []string{"", "a", "b", "ab", "abc", "abd", "b\xff", "\x80", "\xff\xff", "\x01"},
+			Probes: []string{"c", "abe", "\xff", "a\x01"},
+		})
+	} else {
+		// quick tier: the same ten keys as two overlapping 8-key closures
+		out = append(out, AlphaSpec{
+			Name:   "SHORT-A",
+			Free:   []string{"", "a", "b", "ab", "abc", "abd", "b\xff", "\x80"},
+			Probes: []string{"c", "abe", "\xff", "a\x01"},
+		}, AlphaSpec{
+			Name:   "SHORT-B",
+			Free:   []string{"", "ab", "abc", "\xff\xff", "\x01", "\x80", "b\xff", "a"},
+			Probes: []string{"\xff", "\x01\x01", "abd"},
+		})
+	}
 	out = append(out, AlphaSpec{
 		Name:   "LONGPATH",
 		Free:   []string{P(12) + "x", P(12) + "y", P(11) + "z", P(5) + "q", P(10) + "m", P(9) + "n", P(12) + "x" + Q(11) + "1", P(12) + "x" + Q(11) + "2"},
